@@ -73,6 +73,8 @@ fn main() {
         "datadir" => unusable::run_datadir(&args),
         "datadir-child" => unusable::run_datadir_child(&args),
         "damage" => unusable::run_damage(&args),
+        "server" => unusable::run_server_parent(&args),
+        "server-child" => unusable::run_server_child(&args),
         "faultdiag" => unusable::run_faultdiag(&args),
         "registry" => registry::run(&args),
         "parse" => parsex::run(&args),
